@@ -384,7 +384,11 @@ fn run() {
             "file" => {
                 let name = hex_decode(parts[1]);
                 let body = hex_decode(parts[2]);
-                std::fs::write(format!("{}/{}", workdir, name), body).unwrap();
+                let path = format!("{}/{}", workdir, name);
+                if let Some(dir) = std::path::Path::new(&path).parent() {
+                    std::fs::create_dir_all(dir).unwrap();
+                }
+                std::fs::write(path, body).unwrap();
             }
             "failat" => {
                 fail_at = if parts[1] == "-" { None } else { Some(parts[1].parse().unwrap()) }
